@@ -102,6 +102,18 @@ fn ops_json(ops: &[Op]) -> Value {
 const ASCII_KEYS: &[&str] = &[
     "x-a", "x-b", "x-trace-id", "authorization", "te", "user-agent", "content-type", "grpc-message", "grpc-message-type",
     "grpc-status", "grpc-timeout", "grpc-encoding", "grpc-accept-encoding", "X-A", "Content-Type", "x-new",
+    // standard HTTP names: "every other header" includes them
+    "connection", "content-length", "transfer-encoding", "upgrade", "keep-alive", "host", "accept", "accept-encoding",
+    "accept-language", "cookie", "set-cookie", "x-forwarded-for", "forwarded", "via", "trailer", "date", "expect", "range",
+    "referer", "origin", "proxy-authorization", "proxy-connection", "cache-control", "pragma", "content-encoding",
+    "content-language", "content-location", "if-match", "if-none-match", "last-modified", "etag", "location", "server",
+    "warning", "www-authenticate", "age", "vary", "allow", "link", "priority", "Connection", "Keep-Alive",
+];
+const STD_HEADERS: &[(&str, &str)] = &[
+    ("connection", "keep-alive"), ("content-length", "6"), ("transfer-encoding", "chunked"), ("upgrade", "h2c"),
+    ("keep-alive", "timeout=5"), ("host", "example.com:50051"), ("accept", "*/*"), ("accept-encoding", "gzip, br"),
+    ("cookie", "a=1"), ("cookie", "b=2"), ("authorization", "Bearer x"), ("x-forwarded-for", "10.0.0.1"), ("via", "1.1 proxy"),
+    ("trailer", "grpc-status"), ("date", "Thu, 01 Oct 2026 00:00:00 GMT"), ("expect", "100-continue"), ("proxy-connection", "close"),
 ];
 const BIN_KEYS: &[&str] = &["x-payload-bin", "x-other-bin", "-bin", "grpc-status-details-bin", "grpc-trace-bin", "X-Payload-Bin"];
 fn gen_ascii_value(r: &mut Rng) -> Vec<u8> {
@@ -169,6 +181,10 @@ fn gen_headers(r: &mut Rng) -> HeaderMap {
     }
     if r.chance(1, 2) {
         h.insert("user-agent", HeaderValue::from_static("tonic/0.14"));
+    }
+    for _ in 0..r.below(4) {
+        let (k, v) = *r.pick(STD_HEADERS);
+        h.append(k, HeaderValue::from_static(v));
     }
     for _ in 0..r.below(6) {
         if r.chance(1, 3) {
@@ -682,6 +698,9 @@ fn main() {
         h.append("x-a", HeaderValue::from_static("2"));
         h.append("x-p-bin", HeaderValue::from_static("AP8H"));
         h.append("x-p-bin", HeaderValue::from_static("QQ=="));
+        for (k, v) in STD_HEADERS {
+            h.append(*k, HeaderValue::from_static(v));
+        }
         Req { method: "POST".into(), uri: "/pkg.Svc/Method".into(), version, headers: h, ext: (Some(7), None), body: b"\x00\x00\x00\x00\x01x".to_vec() }
     };
     let ok_resp = || {
